@@ -146,31 +146,43 @@ def post_c11nostd(work, reports, ctx):
     compared = 0
     mism = 0
     viols = {}
+    import array
+    sub = 'c12' if any(r.get('property') == 'c12' for r in reports) else 'c11'
     for sh in sorted(set(logs['nstd']) & set(logs['nstd_std'])):
-        a = open(logs['nstd'][sh]).read().splitlines()
-        b = open(logs['nstd_std'][sh]).read().splitlines()
+        a = array.array('Q')
+        a.frombytes(open(logs['nstd'][sh], 'rb').read())
+        b = array.array('Q')
+        b.frombytes(open(logs['nstd_std'][sh], 'rb').read())
         if len(a) != len(b):
             inconclusive.append(f'shard {sh}: {len(a)} no-std results vs {len(b)} std results')
             continue
         compared += 2 * len(a)
         if a == b:
             continue
-        for x, y in zip(a, b):
-            if x == y:
+        for i in range(len(a)):
+            if a[i] == b[i]:
                 continue
+            mism += 1
+            if mism > 60:
+                continue
+            case = f'nstd|{nsh}|{sh}|{i}'
+            outs = {}
+            for fl in ('nstd', 'nstd_std'):
+                q = subprocess.run([ctx['bins'][fl], sub, '--seed', str(ctx['seed']), '--tier', ctx['tier'], '--case', case], stdout=subprocess.PIPE, stderr=subprocess.STDOUT, text=True, env=ctx['env'])
+                outs[fl] = q.stdout.strip()
+            x, y = outs['nstd'], outs['nstd_std']
             fx, fy = x.split('\t'), y.split('\t')
             if len(fx) == 8:  # the SignedDuration float conversions (C12)
                 names = ['index', 'input', 'try_from_secs_f64', 'try_from_secs_f32', 'as_secs_f64', 'as_secs_f32', 'mul_f64', 'div_f64']
-                which = next((names[k] for k in range(8) if fx[k] != fy[k]), '?')
+                which = next((names[k] for k in range(8) if fx[k:k + 1] != fy[k:k + 1]), '?')
                 cls = f'std-and-no-std-builds-disagree/SignedDuration::{which}'
             else:
                 which = 'Span::round' if fx[8:9] != fy[8:9] else 'Span::total' if fx[9:10] != fy[9:10] else 'inputs'
                 cls = f'std-and-no-std-builds-disagree/{which}[{fx[7] if len(fx) > 7 else "?"}]'
-            mism += 1
             if cls in viols:
                 viols[cls]['count'] += 1
             else:
-                viols[cls] = {'class': cls, 'case': f'nstd|{nsh}|{sh}|{fx[0]}', 'expected': 'with std: ' + y[:300], 'got': 'without std: ' + x[:300], 'count': 1}
+                viols[cls] = {'class': cls, 'case': case, 'expected': 'with std: ' + y[:300], 'got': 'without std: ' + x[:300], 'count': 1}
     return {'flavour': 'offline', 'evaluations': compared, 'distinct_nontrivial': 0, 'samples': [], 'counters': {'std_nostd_results_compared': compared, 'std_nostd_mismatches': mism},
             'violations_total': mism, 'violations': list(viols.values()), 'inconclusive': inconclusive, 'notes': []}
 
